@@ -766,8 +766,11 @@ class Gen(object):
         for _ in range(5):
             t = self.gen_type(2, True)
             if self.matchable(t) and (want is None or want(t)):
-                return self.expr(t, sc, d - 1)
-        return self.expr(INT, sc, d - 1)
+                e = self.expr(t, sc, d - 1)
+                if e.K not in ("Fail", "Todo"):  # `when fail is { p -> p.field }`: the subject's type would be unknown
+                    return e
+        e = self.expr(INT, sc, d - 1)
+        return e if e.K not in ("Fail", "Todo") else G.Lit(0, "dec", INT)
 
     def gen_when(self, ty, sc, d):
         subj = self.pick_subject(sc, d)
@@ -906,7 +909,20 @@ class Gen(object):
                     binds = [(pat.name, ct)]
             self.feat("expect:downcast")
             self.feat("downcast:" + ct[0])
-            return G.Expect(pat, ct, rhs, self.expr(ty, sc.extend(binds), d - 1), ty)
+            sc2 = sc.extend(binds)
+            node = G.Expect(pat, ct, rhs, self.expr(ty, sc2, d - 1), ty)
+            if A.lazy_cast_hazard(node):
+                # FINDINGS.md F10: a cast to a primitive type is only performed when its variable is needed
+                if self.allow_hazard:
+                    self.feat("known:call-by-need-expect-cast")
+                    return node
+                for _ in range(2):
+                    node.body = self.expr(ty, sc2, d - 1)
+                    if not A.lazy_cast_hazard(node):
+                        return node
+                b = self.strict_user(pat.name, ct, ty, sc2, d) if pat.K == "PVar" else None
+                node.body = b if b is not None else self.expr(ty, sc, d - 1)
+            return node
         if ch < 6:
             self.feat("expect:bool")
             return G.ExpectBool(self.expr(BOOL, sc, d - 1), self.expr(ty, sc, d - 1), ty)
